@@ -47,7 +47,7 @@ def depth(k):
 def run(ctx):
     repo = ctx.repo
     res = Result(PROP)
-    res.rules = ["G-MEMBER", "G-NODES", "G-SKIP", "G-P01", "G-RADIX", "G-ALIGN"]
+    res.rules = ["G-MEMBER", "G-NODES", "G-SKIP", "G-P01", "G-RADIX", "G-ALIGN", "G-FLOW"]
     res.explanation = (
         "Narrow claim: shape (nesting) of the members handed to the edge-adding methods from kind inference, must-reach of "
         "add_nodes_from on the returned network, agreement of skip-sampling loop conditions with their bounds, the two "
@@ -80,6 +80,10 @@ def run(ctx):
         check_geometric(repo, res)
         check_radix(repo, res)
         check_align(repo, res, fns)
+        from .common import check_dead_params
+
+        nd = check_dead_params(res, PROP, "G-FLOW", fns, "the generated network")
+        res.floor("generators checked for dead parameters", nd, 25)
     return res
 
 
